@@ -5,10 +5,11 @@ import Cutadapt.Properties.C02
 #print axioms Cutadapt.C02.exact_occurrence_found
 #print axioms Cutadapt.C02.noindel_complete
 #print axioms Cutadapt.C02.indel_complete
-#print axioms Cutadapt.C02.hamming_snoc
-#print axioms Cutadapt.C02.hamming_reverse
 #print axioms Cutadapt.C02.encoded_exact
 #print axioms Cutadapt.C02.comparePrefix_exact
 #print axioms Cutadapt.C02.anchored5_exact_removed_exactly
 #print axioms Cutadapt.C02.anchored3_exact_removed_exactly
+#print axioms Cutadapt.C02.back_cut_before_leftmost_copy
+#print axioms Cutadapt.C02.front_cut_before_end_of_leftmost_copy
+#print axioms Cutadapt.C02.rightmost_cut_after_rightmost_copy
 #print axioms Cutadapt.C02.occ_of_match
